@@ -22,7 +22,58 @@ def explore(ctx):
     grid_common.reused_adjacency_stream(ctx, 120 if ctx.quick else 1200)
     long_axis_stream(ctx)
     infinity_stream(ctx)
+    narrow_threshold_stream(ctx)
     cc.infinity_tie_stream(ctx, 200 if ctx.quick else 2000, 'c03_inf_tie')
+
+
+def against_definition(d, arr, mv, shape, fails):
+    """C03 read directly on one dendrogram (no pruning): every structure's region is connected, no pixel above the
+    threshold that touches a region from outside is brighter than a pixel inside, the trunk regions are the connected
+    components of the pixels above the threshold (compared exactly, as Python numbers)."""
+    import numpy as np
+    flat = arr.ravel()
+    kept = set(int(i) for i in np.flatnonzero(~np.isnan(flat) & (flat > mv)))
+
+    def nbrs(p):
+        c = np.unravel_index(p, shape)
+        for a in range(len(shape)):
+            for dlt in (-1, 1):
+                cc_ = list(c)
+                cc_[a] += dlt
+                if 0 <= cc_[a] < shape[a]:
+                    yield int(np.ravel_multi_index(cc_, shape))
+
+    def component(start, allowed):
+        seen, todo = {start}, [start]
+        while todo:
+            x = todo.pop()
+            for y in nbrs(x):
+                if y in allowed and y not in seen:
+                    seen.add(y)
+                    todo.append(y)
+        return seen
+    for s_ in d:
+        reg = set(oracles.flat_indices(shape, s_.indices(subtree=True)))
+        if component(next(iter(reg)), reg) != reg:
+            fails.append('structure %d is not connected: %s' % (s_.idx, sorted(reg)))
+        lo = min(flat[p] for p in reg)
+        for p in reg:
+            for q in nbrs(p):
+                if q in kept and q not in reg and flat[q] > lo:
+                    fails.append('pixel %d (value %r) touches structure %d from outside and is brighter than its faintest pixel (%r)' % (q, float(flat[q]), s_.idx, float(lo)))
+                    break
+            else:
+                continue
+            break
+    comps, left = [], set(kept)
+    while left:
+        c_ = component(next(iter(left)), kept)
+        comps.append(sorted(c_))
+        left -= c_
+    trunk = sorted(sorted(oracles.flat_indices(shape, t.indices(subtree=True))) for t in d.trunk)
+    if trunk != sorted(comps):
+        fails.append('trunk regions %s are not the connected components %s of the pixels above the threshold' % (trunk, sorted(comps)))
+
 
 
 def infinity_stream(ctx):
@@ -45,52 +96,37 @@ def infinity_stream(ctx):
         fails = []
         try:
             d = Dendrogram.compute(arr.copy(), min_value=mv)
-            flat = arr.ravel()
-            kept = set(int(i) for i in np.flatnonzero(~np.isnan(flat) & (flat > mv)))
-
-            def nbrs(p):
-                c = np.unravel_index(p, shape)
-                for a in range(len(shape)):
-                    for dlt in (-1, 1):
-                        cc_ = list(c)
-                        cc_[a] += dlt
-                        if 0 <= cc_[a] < shape[a]:
-                            yield int(np.ravel_multi_index(cc_, shape))
-
-            def component(start, allowed):
-                seen, todo = {start}, [start]
-                while todo:
-                    x = todo.pop()
-                    for y in nbrs(x):
-                        if y in allowed and y not in seen:
-                            seen.add(y)
-                            todo.append(y)
-                return seen
-            for s_ in d:
-                reg = set(oracles.flat_indices(shape, s_.indices(subtree=True)))
-                if component(next(iter(reg)), reg) != reg:
-                    fails.append('structure %d is not connected: %s' % (s_.idx, sorted(reg)))
-                lo = min(flat[p] for p in reg)
-                for p in reg:
-                    for q in nbrs(p):
-                        if q in kept and q not in reg and flat[q] > lo:
-                            fails.append('pixel %d (value %r) touches structure %d from outside and is brighter than its faintest pixel (%r)' % (q, float(flat[q]), s_.idx, float(lo)))
-                            break
-                    else:
-                        continue
-                    break
-            comps, left = [], set(kept)
-            while left:
-                c_ = component(next(iter(left)), kept)
-                comps.append(sorted(c_))
-                left -= c_
-            trunk = sorted(sorted(oracles.flat_indices(shape, t.indices(subtree=True))) for t in d.trunk)
-            if trunk != sorted(comps):
-                fails.append('trunk regions %s are not the connected components %s of the pixels above the threshold' % (trunk, sorted(comps)))
+            against_definition(d, arr, mv, shape, fails)
         except Exception as e:
             fails.append('raised %r' % (e,))
         ctx.count('infinite_pixel_cases')
         ctx.case_done(None, ('c03-inf', repr(vals), shape, mv))
+        if fails:
+            ctx.oracle_failure(info, fails[:3])
+
+
+def narrow_threshold_stream(ctx):
+    """Single / half precision images with a decimal threshold given as a Python number: np.float32(0.1) is above 0.1,
+    np.float32(0.7) below 0.7 - the comparison is between the numbers, not between their roundings."""
+    import numpy as np
+    from astrodendro import Dendrogram
+    rng = ctx.rng('c03-narrow-threshold')
+    for it in range(80 if ctx.quick else 800):
+        shape = rng.choice([(rng.randint(4, 10),), (3, 4), (2, 6)])
+        n = int(np.prod(shape))
+        dt = rng.choice(['float32', 'float32', 'float16', '>f4'])
+        ks = [rng.randint(0, 12) for _ in range(n)]
+        arr = np.array([k * 0.1 for k in ks]).astype(dt).reshape(shape)
+        mv = 0.1 * rng.choice(ks)
+        info = {'stream': 'narrow dtype, decimal threshold', 'dtype': dt, 'shape': list(shape), 'data': [float(x) for x in arr.ravel()], 'min_value': mv}
+        fails = []
+        try:
+            d = Dendrogram.compute(arr.copy(), min_value=mv)
+            against_definition(d, arr.astype('float64'), mv, shape, fails)
+        except Exception as e:
+            fails.append('raised %r' % (e,))
+        ctx.count('narrow_threshold_cases')
+        ctx.case_done(None, ('c03-narrow', tuple(ks), shape, dt, mv))
         if fails:
             ctx.oracle_failure(info, fails[:3])
 
